@@ -821,6 +821,11 @@ func (a *agg) add(j *job) {
 	t.MultiFault += s.MultiFault
 	t.Compared += s.Compared
 	t.Blocks += s.Blocks
+	t.PoolGets += s.PoolGets
+	t.PoolDrops += s.PoolDrops
+	t.RandDraws += s.RandDraws
+	t.ClockReads += s.ClockReads
+	t.HotYields += s.HotYields
 	if j.kind == "cold" {
 		t.Cold += s.Runs
 	}
@@ -944,6 +949,11 @@ func (o *orch) writeEvidence(a *agg, c counts, nviol int) {
 			"F5_caller_mutations":     a.s.Mutates,
 			"F6_forced_gc":            a.s.GCs,
 			"F7_shim_lock_contention": a.s.Blocks,
+			"F7_pool_gets":            a.s.PoolGets,
+			"F7_pool_drops":           a.s.PoolDrops,
+			"F7_rand_draws":           a.s.RandDraws,
+			"F7_clock_reads":          a.s.ClockReads,
+			"hot_yields":              a.s.HotYields,
 			"static_errors":           a.s.StaticErr,
 			"F7_note":                 "0 means the repository has no sync/time/rand call site for the shims to act on",
 		},
